@@ -125,30 +125,8 @@ theorem mkField_legacy (m : Mesh) (vec : Bool) (hd : m.region.dims.length = 3) (
             vmap := defaultVmap (if vec then 3 else 1) m.region.dims (if vec then some ["x", "y", "z"] else none),
             unit := none } := by
   cases vec with
-  | true =>
-    apply mkField_ok_aux
-    · decide
-    · rfl
-    · right; simp
-  | false =>
-    apply mkField_ok_aux
-    · decide
-    · rfl
-    · left; rfl
-where
-  mkField_ok_aux {m : Mesh} {dim : Nat} {data : NDA (List Rat)} {valid : NDA Bool}
-      {vin vd : Option (List String)} (h1 : 1 ≤ dim) (hv : vdimsSet dim vin = .ok vd) (hn : dim = 1 ∨ vd ≠ none) :
-      mkField m dim data valid vin =
-        .ok { mesh := m, nvdim := dim, data := data, valid := valid, vdims := vd,
-              vmap := defaultVmap dim m.region.dims vd, unit := none } := by
-    unfold mkField
-    rw [if_neg (by omega), hv]
-    simp only
-    rw [if_neg]
-    rintro ⟨a, _, c⟩
-    rcases hn with hn | hn
-    · exact a hn
-    · exact hn c
+  | true => rfl
+  | false => rfl
 
 theorem nm1_pos : 0 < nm1 := by unfold nm1; norm_num
 
